@@ -1,4 +1,5 @@
 import GffProofs.Props.C09
+import GffProofs.Props.C09b
 open GffProofs.C09
 #print axioms vote_spec
 #print axioms vote_unanimous
@@ -6,3 +7,15 @@ open GffProofs.C09
 #print axioms choose_order_nodup
 #print axioms choose_order_first_seen
 #print axioms choose_consistent
+#print axioms supplied_verbatim
+#print axioms supplied_verbatim_file
+#print axioms supplied_verbatim_features
+#print axioms supplied_features_carry
+#print axioms supplied_file_carry
+#print axioms supplied_file_dialect
+#print axioms supplied_ignores_checklines
+#print axioms inferred_is_vote
+#print axioms routing
+#print axioms lineSpec_fmt_gtf
+#print axioms consistent_file_dialect
+#print axioms consistent_file_fmt
